@@ -33,9 +33,9 @@ from vsim.world import Deadlock, HarnessError, StepCap, Violation, World
 PROPERTY = "C14"
 LEVEL = "fault_enumeration"
 RULE = (
-    "base scenario of one close path (socket adapter, stream endpoint, async TCP client idle / with a back-pressured sender / still connecting, "
+    "base scenario of one close path (socket adapter, stream endpoint, async TCP client idle / with a back-pressured sender / still connecting / built around a given socket and never used, "
     "server-side client with or without a sender holding the lock, teardown of the low-level server's connection task (handler returns / raises / peer half-closes / serving task group cancelled, with or without unsent bytes buffered against a peer that does not read), TLS aclose with a peer that answers close_notify promptly / late / never / FIN / RST, "
-    "TLS wrap with a stalled / garbage / cut handshake, stapled stream and datagram transports with a failing or slow first half, wrapped-transport errors at call n); "
+    "TLS wrap with a stalled / garbage / cut handshake or a server_hostname the ssl module rejects, stapled stream and datagram transports with a failing or slow first half, wrapped-transport errors at call n); "
     "fault = task.cancel() on the closing task before loop iteration j, for every j of the base run; a case is one (scenario, j); "
     "non-trivial = the cancellation was delivered while the close was in progress"
 )
@@ -403,10 +403,20 @@ def _x_client(world: World, scn: dict, cancel_at: int | None) -> int:
     net.default_capacity = scn["cap"]
 
     async def main() -> None:
-        client = AsyncTCPNetworkClient(("127.0.0.1", 4000), StreamProtocol(StringLineSerializer()), backend=ctx.backend)
+        if scn["state"] == "given-socket":
+            # the client is built around an already connected socket and closed before any operation performed the (lazy)
+            # wrapping of that socket: the socket it owns must be closed all the same
+            given, far = net.socketpair()
+            given.label = "s-given"
+            Peer(ctx.w, far)
+            client = AsyncTCPNetworkClient(given, StreamProtocol(StringLineSerializer()), backend=ctx.backend)
+        else:
+            client = AsyncTCPNetworkClient(("127.0.0.1", 4000), StreamProtocol(StringLineSerializer()), backend=ctx.backend)
         sender = None
         connector = None
-        if scn["state"] == "connecting":
+        if scn["state"] == "given-socket":
+            pass
+        elif scn["state"] == "connecting":
             async def connect() -> None:
                 try:
                     await client.wait_connected()
@@ -451,7 +461,7 @@ def _x_client(world: World, scn: dict, cancel_at: int | None) -> int:
 
 
 def _h_client(world: World) -> None:
-    state = world.pick("state", ["idle", "sending", "connecting"])
+    state = world.pick("state", ["idle", "sending", "connecting", "given-socket"])
     scn = {
         "state": state,
         "cap": world.pick("cap", [1 << 20, 64, 1024]),
@@ -746,6 +756,8 @@ def _x_tls(world: World, scn: dict, cancel_at: int | None) -> int:
         raw = await ctx.backend.wrap_stream_socket(lib)
         inner: Any = FaultyTransport(raw, scn["fail_at"]) if scn["fail_at"] else raw
         kw = dict(server_side=lib_server, server_hostname=None if lib_server else "sim.host", standard_compatible=scn["std"], handshake_timeout=scn["hs_timeout"], shutdown_timeout=scn["sd_timeout"])
+        if scn["op"] == "wrap" and scn["hs_fault"] == "bad-hostname" and not lib_server:
+            kw["server_hostname"] = ".sim.host"  # the SSL object cannot even be created (empty IDNA label): wrap() fails before any I/O
         if scn["op"] == "wrap":
             box: dict[str, Any] = {}
 
@@ -836,7 +848,7 @@ def _h_tls(world: World) -> None:
         "exchange": bool(world.choose("exchange", 2)),
         "hs_timeout": world.pick("hs_timeout", [60.0, 1.0, 0.25]),
         "sd_timeout": world.pick("sd_timeout", [30.0, 1.0, 0.25]),
-        "hs_fault": world.pick("hs_fault", ["stall", "cut", "garbage", "none"]),
+        "hs_fault": world.pick("hs_fault", ["stall", "cut", "garbage", "none", "bad-hostname"]),
         "hs_cut": world.pick("hs_cut", [0, 1, 5, 100, 500]),
         "fail_at": fail_at,
     }
